@@ -248,6 +248,7 @@ class Engine:
     def _run_once(self, c, extra_requires, pin, collect_outcomes):
         env = c.env(self.world)
         self.env = env
+        self.top_env = env
         self.ghost_env = {}
         for k, v in (pin or {}).items():
             self.pc.append(k == v)
@@ -475,6 +476,8 @@ class Engine:
             return self.ghost_env[name]
         if name in self.world:
             return self.world[name]
+        if name.startswith('__') and name in getattr(self, 'top_env', {}):
+            return self.top_env[name]       # hidden objects of the contract's environment (models look them up)
         raise Unsupported(f'{self.c.qual}: unknown name {name!r}')
 
     def store(self, target, val):
@@ -1570,6 +1573,10 @@ class Engine:
             if name in self.world and callable(self.world[name]) and self.in_spec:
                 args, kwargs = self.args(e)
                 return self.call_value(self.world[name], args, kwargs, e)
+            if name == 'getattr' and len(e.args) == 3 and isinstance(e.args[1], ast.Constant):
+                o = self.eval(e.args[0])
+                if isinstance(o, Obj):
+                    return o.f[e.args[1].value] if e.args[1].value in o.f else self.eval(e.args[2])
             if name == 'cast' and len(e.args) == 2:
                 return self.eval(e.args[1])          # typing.cast(T, v) is v
             if name == 'isinstance':
